@@ -95,6 +95,43 @@ namespace
         rec(d, a, b);
         return glued;
     }
+    // Spaces built only from R^n, SO(2), SO(3), time, discrete, SE(2), SE(3) and positively weighted compounds / wrappers of those: there
+    // the library's own equalStates() and distance() are exactly consistent (read from the code: every leaf distance is 0 only for
+    // representations equalStates() accepts, and a weighted sum of non-negative terms is 0 only if every term is), so the positivity
+    // clause can be judged with the library's own notion of "equal" down to the last bit.
+    bool exactEqualityDomain(const Desc &d)
+    {
+        switch (d.kind)
+        {
+            case RV:
+            case SO2:
+            case SO3:
+            case TIME:
+            case DISCRETE:
+                return true;
+            case SE2:
+            case SE3:
+            case COMPOUND:
+            case WRAPPER:
+                for (size_t i = 0; i < d.subs.size(); ++i)
+                    if (!exactEqualityDomain(d.subs[i]) || (d.kind == COMPOUND && !(d.w[i] > 0)))
+                        return false;
+                return true;
+            default:
+                return false;
+        }
+    }
+    // pi and -pi are two in-bounds representations of one angle (distance 0, equalStates false): representation, not a finding
+    bool so2SeamPair(const Desc &d, const ob::State *a, const ob::State *b)
+    {
+        std::vector<double> va, vb;
+        walk(d, a, 1.0, [&](const Desc &l, const ob::State *x, double) { if (l.kind == SO2) va.push_back(x->as<ob::SO2StateSpace::StateType>()->value); });
+        walk(d, b, 1.0, [&](const Desc &l, const ob::State *x, double) { if (l.kind == SO2) vb.push_back(x->as<ob::SO2StateSpace::StateType>()->value); });
+        for (size_t i = 0; i < va.size() && i < vb.size(); ++i)
+            if (std::fabs(va[i] - vb[i]) > 6)
+                return true;
+        return false;
+    }
     const ob::State *unwrap(const Desc *&d, const ob::State *s)
     {
         while (d->kind == WRAPPER)
@@ -175,6 +212,7 @@ void vf::run_case(Src &s, Ctx &c)
     for (int i = 0; i < 3; ++i)
         VCHECK(c, D[i][i] == 0 || D[i][i] <= slack(d, 1, 0) * 1e-3, "C06/self-distance", "%s: d(s,s) = %.17g", d.name().c_str(), D[i][i]);
     bool coarse = d.contains(SPHERE) || d.contains(DUBINS) || d.contains(REEDSSHEPP);
+    const bool exactDomain = exactEqualityDomain(d);
     double factor = coarse ? 1e-5 / (64 * 2.2e-16) : 10;
     for (int i = 0; i < 3; ++i)
         for (int j = 0; j < 3; ++j)
@@ -183,6 +221,14 @@ void vf::run_case(Src &s, Ctx &c)
                 continue;
             if (!sp->equalStates(st[i], st[j]) && separated(d, st[i], st[j], factor) && !gluedSeam(d, st[i], st[j]))
                 VCHECK(c, D[i][j] > 0, "C06/positivity", "%s: distance 0 between states that differ (beyond numerical resolution)", d.name().c_str());
+            if (exactDomain && D[i][j] == 0 && !sp->equalStates(st[i], st[j]) && !so2SeamPair(d, st[i], st[j]))
+            {
+                c.count("positivity:exact-domain-zero-distance-pair");
+                VCHECK(c, false, "C06/positivity-vs-equalStates", "%s: distance is exactly 0 between two states the space itself reports as not equal (pair classes %s / %s)", d.name().c_str(), cb,
+                       cx);
+            }
+            if (exactDomain && D[i][j] == 0)
+                c.count("positivity:zero-distance-pairs-judged-with-equalStates");
             double e = slack(d, 1, mag);
             if (!(D[i][j] <= ext + e))
                 c.failOrKnown(familyKey(d, "extent"), vf::fmt("%s: distance %.17g exceeds getMaximumExtent() = %.17g", d.name().c_str(), D[i][j], ext));
